@@ -34,7 +34,7 @@ func (t *HTMLTemplater) Apply(parts *gun.RequestParts, vs map[string]any, scenar
 	strBuilder.Reset()
 
 	for k, v := range parts.Headers {
-		tmpl, err = t.getTemplate(v, scenarioName, stepName, k)
+		tmpl, err = t.getTemplate(v, scenarioName, stepName, "header_"+k)
 		if err != nil {
 			return fmt.Errorf("%s, template.Execute Header %s, %w", op, k, err)
 		}
